@@ -283,13 +283,17 @@ fn one_victim(ctx: &WorkerCtx, rep: &mut WorkerReport, case_seed: u64, kind: &st
     w.profile.max_txs_per_block = 4;
     let mut d = new_driver("C04");
     // committed history
-    let pre = rng.range(2, 9);
+    let pre = if kind == "reorg" && ctx.shard % 7 == 5 { rng.range(5, 9) } else { rng.range(2, 9) };
     grow(&mut w, &mut d, pre, CommitPolicy::Random(40), &mut rng);
     d.exec(Op::Commit);
     let mut after_commit_obs = None;
     // uncommitted tail
+    // (the reorg victim of shard 5 always removes three committed blocks and nothing else, so that
+    // the loops over block-keyed rows have several iterations on disk)
+    let deep_committed = kind == "reorg" && ctx.shard % 7 == 5;
     let tail = match kind {
         "commit" => rng.range(1, 6),
+        "reorg" if deep_committed => 0,
         "reorg" => rng.range(0, 3),
         _ => rng.range(0, 2),
     };
@@ -311,7 +315,8 @@ fn one_victim(ctx: &WorkerCtx, rep: &mut WorkerReport, case_seed: u64, kind: &st
     let victim = match kind {
         "commit" => Op::Commit,
         "reorg" => {
-            let n = (d.height - rng.range(1, 4) as i64).max((d.max_ever - 10).max(0)).max(0);
+            let depth = if deep_committed { 3 } else { rng.range(1, 4) as i64 };
+            let n = (d.height - depth).max((d.max_ever - 10).max(0)).max(0);
             Op::Reorg { n: n as u64 }
         }
         "finalise" => {
@@ -373,6 +378,24 @@ fn one_victim(ctx: &WorkerCtx, rep: &mut WorkerReport, case_seed: u64, kind: &st
         let table = wname.split(':').nth(1).unwrap_or("").to_string();
         if seen.insert(table) && (ctx.thorough() || i % 5 == 0) {
             points.push(i as i64);
+        }
+    }
+    // every kind of write (site, table, operation) that occurs more than once: one of its later
+    // occurrences too - a loop that dies after its first iteration leaves another state behind than one
+    // that dies before it. Writes outside the versioned tables (block-keyed tables, the configuration
+    // table) are few and always taken; the others with probability 1/5 per kind in the quick tier
+    let mut by_kind: BTreeMap<&str, Vec<usize>> = BTreeMap::new();
+    for (i, wname) in writes.iter().enumerate() {
+        by_kind.entry(wname.as_str()).or_default().push(i);
+    }
+    for (label, idxs) in &by_kind {
+        if idxs.len() >= 2 && (ctx.thorough() || !label.starts_with("cached.") || rng.chance(1, 5)) {
+            let j = 1 + rng.below(idxs.len() as u64 - 1) as usize;
+            points.push(idxs[j] as i64);
+            if !label.starts_with("cached.") {
+                points.push(idxs[0] as i64);
+                points.push(*idxs.last().unwrap() as i64);
+            }
         }
     }
     points.push(total - 1);
